@@ -74,6 +74,29 @@ def full_range_trapezoids(rng):
     return out
 
 
+def extreme_row_trapezoids(rng):
+    """trapezoids whose top / bottom lie in the outermost rows of the 16.16 range (where the sample-row rounding must
+       saturate instead of wrapping), and ordinary tiny trapezoids moved there by the extreme offsets -32768 / 32767,
+       through every trapezoid entry point, on small alpha images: nothing may be written outside the image"""
+    out = []
+    lo, hi = -2 ** 31, 2 ** 31 - 1
+    spans = [(lo, lo + 1), (lo, lo + 2184), (lo, lo + 2185), (lo, lo + 32768), (lo + 1, lo + 65536), (lo, lo + 3 * 65536),
+             (hi - 65536, hi), (hi - 1, hi), (hi - 2185, hi), (hi - 32768, hi - 1), (lo, hi)]
+    tiny = [(0, 1), (0, 2185), (0, 32768), (0, 65536), (1, 3 * 65536), (-65536, 1)]
+    for dfmt in (F["a8"], F["a1"], fmt4()):
+        for tk in (0, 1, 2, 3):
+            for (top, bot) in spans:
+                vals = [top, bot, 0, top, 0, bot, 5 * FX1, top, 5 * FX1, bot]
+                f = [rng.choice([0, 1, 2]), dfmt, 8, 3, 1] + vals + [0, 0, rng.randrange(1, 2 ** 31), tk]
+                out.append("T %d %s" % (len(f), " ".join(str(int(x)) for x in f)))
+            for (top, bot) in tiny:
+                for (xo, yo) in ((0, -32768), (0, 32767), (0, -32767), (-32768, 0), (32767, 1), (-32768, -32768)):
+                    vals = [top, bot, 0, top, 0, bot, 5 * FX1, top, 5 * FX1, bot]
+                    f = [rng.choice([0, 1, 2]), dfmt, 8, 3, 1] + vals + [xo, yo, rng.randrange(1, 2 ** 31), tk]
+                    out.append("T %d %s" % (len(f), " ".join(str(int(x)) for x in f)))
+    return out
+
+
 def blit_like(rng):
     """same-format, same-size, same-stride copies of whole images and of windows (the shape memcpy-style shortcuts
        are written for), with padded strides, in every observation mode"""
@@ -584,6 +607,9 @@ def run(prop, args):
     full = full_range_trapezoids(rng)
     reqs += full if not quick else rng.sample(full, 300)
     chk.extra["full_range_trapezoid_requests"] = len(full)
+    ext = extreme_row_trapezoids(rng)
+    reqs += ext
+    chk.extra["extreme_row_trapezoid_requests"] = len(ext)
     tight = tight_table_requests(rng, wd)
     reqs += tight if (not quick or len(tight) <= 1500) else rng.sample(tight, 1500)
     chk.extra["tight_fast_path_table_requests"] = len(tight)
